@@ -36,6 +36,8 @@ def configs(tier):
             out.append(dict(key=f"sizes={s},window={w}", sizes=list(s), w=w, cost=10 ** sum(s), split=(24 if sum(s) >= 3 else None)))
     # three annotators and more units than one window takes (w * n < units): the tail of the run sees a single annotator with units left
     out.append(dict(key="sizes=(2, 1, 1),window=1", sizes=[2, 1, 1], w=1, cost=10 ** 4, split=32))
+    # units of one annotator may start together (the container then orders them by end, then label)
+    out.append(dict(key="sizes=(2, 1),window=1,ties-on-start-allowed", sizes=[2, 1], w=1, ties=True, cost=3000, split=24))
     out.append(dict(key="job-dispatch", kind="dispatch", cost=1))
     out.append(dict(key="sizes=(1, 1),window=1,after-earlier-fast-alignment-and-remove", sizes=[1, 1], w=1, warm=True, cost=3000, split=24))
     if tier == "thorough":
@@ -108,7 +110,7 @@ def harness(cfg, ns):
     def h(ctx):
         de = ctx.fresh("de")
         ctx.solver.add(de.e > 0)
-        c, info = common.build_continuum(ns, ctx, sizes, coords="sym", labels="unique", min_dur=1)
+        c, info = common.build_continuum(ns, ctx, sizes, coords="sym", labels="unique", min_dur=1, ordered=("weak" if cfg.get("ties") else True))
         D, table = common.make_abstract_dissim(ns, ctx, de, c.categories)
         inputs = [de] + [v[k] for v in info.values() for k in ("start", "end")]
         ctx.notes["inputs"] = inputs
